@@ -295,7 +295,7 @@ def unhex(s):
 
 def run(ctx):
     seed = ctx.seed
-    n = ctx.vol(250, 6000)
+    n = ctx.vol(150, 6000)
     if ctx.replay_in:
         try:
             rp = json.load(open(ctx.replay_in))
